@@ -18,7 +18,7 @@ PROPS = {
         "gen": [{"corpus": "structs", "mode": "err", "unit_span": True}, {"corpus": "enums", "mode": "full", "unit_span": True}, {"corpus": "elems", "mode": "full", "unit_span": True}],
         "classes": r"postcondition|invariant|post-condition of closure",
         "level_text": "Same emitted functions proved equal to the full oracle: Err(e_multiple(mistakes)) with one error per unknown name, repeat, literal item, "
-                      "failed conversion (located at name / name[i]), flatten failure and missing field, in order; Ok iff none. Span identity is abstracted (single-valued Span) so only C03 sees which span.",
+                      "failed conversion (located at name / name[i]), flatten failure and missing field, in order; Ok iff none. Spans are erased in this view (rule R20: every `.with_span(..)` of the emitted code is dropped and the oracle attaches none; with_span changes only the span field, proved in l1_error_api), so only C03 sees whether and which span an error carries.",
         "level_note": "Proof per program; programs sampled. Accumulator/Error::multiple contracts proved on real bodies. Body-layer conversion (Data/Fields::try_from) and maps are under C16/C14.",
         "design_ref": "DESIGN.md section 6 C02",
         "assumptions": "L3",
@@ -226,6 +226,9 @@ PROPS = {
     "C06": {
         "units": ["c06_parse_attr", "c06_middleware", "c10_field_options", "c10_variant_core_options", "c10_receivers", "c10_element_options", "c10_codegen_views", "c10_shape_words", "l2_options_api"],
         "classes": r"precondition not satisfied|assertion failed|postcondition|invariant|unreachable|panic",
+        # parse_nested / validate_body carry C10's functional contracts (which option changes, how many violations); for C06 they count
+        # with their panic-site preconditions and the accumulator-discipline assertions only
+        "fn_classes": [(r"^(parse_nested|validate_body)$", r"precondition not satisfied|assertion failed|unreachable|panic")],
         "level_text": "Every panic!/unreachable!/unwrap in the option layer is kept in the extracted text and proved unreachable: parse_field/parse_variant/parse_body from the body-shape agreement Core::start establishes and option parsing preserves, "
                       "Core::as_codegen_default from 'default is never Inherit', get_ident().unwrap() from is_ident, segments.first().unwrap() in the shape word parsers from syn's non-empty-path guarantee. parse_attr is total for every attribute form "
                       "(bare, name-value, literal items, non-list token content) and no `?`/return executes while an accumulator created in the function is live (R13 ghost counters). All six receivers' `new` return normally with either a receiver whose "
